@@ -112,7 +112,8 @@ def decide(ob, prog, src, tier):
     res = {"name": ob["name"], "family": ob.get("family", ob["name"]), "engine": "mirsym(z3)", "funcs": ob.get("funcs", []), "bound": ob.get("bound", ""),
            "query": ob.get("doc", ""), "status": "inconclusive", "solver_s": 0.0, "paths": 0, "queries": 0, "nontrivial": ob.get("nontrivial", True)}
     try:
-        paths, stats = explore(prog, src, models.MODELS, ob["run"], max_paths=ob.get("max_paths", 3000), loop_bound=ob.get("loop_bound", 8))
+        budget = ob.get("budget_s", int(os.environ.get("VERIF_OBLIGATION_BUDGET_S", "1500" if tier == "quick" else "7200")))
+        paths, stats = explore(prog, src, models.MODELS, ob["run"], max_paths=ob.get("max_paths", 3000), loop_bound=ob.get("loop_bound", 8), deadline=t0 + budget)
         res["paths"] = stats["paths"]
         res["queries"] = stats["queries"]
         if stats["paths"] == 0:
@@ -128,14 +129,14 @@ def decide(ob, prog, src, tier):
                 if label.startswith("witness:"):
                     # reachability witness: must be satisfiable on some path
                     s = z3.Solver()
-                    s.set("timeout", 30000)
+                    s.set("timeout", 120000)
                     s.add(*p.pc)
                     s.add(prop)
                     if s.check() == z3.sat:
                         witness_ok = True
                     continue
                 s = z3.Solver()
-                s.set("timeout", 60000)
+                s.set("timeout", 240000)
                 s.add(*p.pc)
                 s.add(z3.Not(prop) if not isinstance(prop, bool) else z3.BoolVal(not prop))
                 ts = time.time()
@@ -143,7 +144,7 @@ def decide(ob, prog, src, tier):
                 res["solver_s"] += time.time() - ts
                 nq += 1
                 if r == z3.unknown:
-                    cv = cvc5_check(s.to_smt2().replace("(check-sat)", ""), 120)
+                    cv = cvc5_check(s.to_smt2().replace("(check-sat)", ""), 480)
                     if cv == "unsat":
                         r = z3.unsat
                     else:
@@ -156,7 +157,7 @@ def decide(ob, prog, src, tier):
                     r = s.check()
                     nq += 1
                     if r == z3.unknown:
-                        cv = cvc5_check(s.to_smt2().replace("(check-sat)", ""), 120)
+                        cv = cvc5_check(s.to_smt2().replace("(check-sat)", ""), 480)
                         if cv == "unsat":
                             r = z3.unsat
                         else:
@@ -232,6 +233,15 @@ def replay_main():
 _OBS, _ENV = [], None
 
 
+def _worker_init():
+    # a worker must not outlive a killed check (PR_SET_PDEATHSIG = 1, SIGKILL = 9)
+    try:
+        import ctypes
+        ctypes.CDLL("libc.so.6", use_errno=True).prctl(1, 9, 0, 0, 0)
+    except Exception:
+        pass
+
+
 def _decide_index(i):
     prog, src, tier = _ENV
     try:
@@ -258,7 +268,7 @@ def main():
         import multiprocessing as mp
         global _OBS, _ENV
         _OBS, _ENV = obs, (prog, src, tier)
-        with mp.get_context("fork").Pool(min(jobs, len(obs))) as pool:
+        with mp.get_context("fork").Pool(min(jobs, len(obs)), initializer=_worker_init) as pool:
             for txt in pool.imap(_decide_index, range(len(obs))):
                 r = json.loads(txt)
                 print(f"[mirsym] {r['name']}: {r['status']} paths={r['paths']} queries={r['queries']} {r.get('reason', r.get('failed', ''))}", flush=True)
